@@ -1,0 +1,5 @@
+//go:build !verif
+
+package gohbase
+
+func vhook(string, any, any) {}
